@@ -388,3 +388,19 @@ int bad_shift_widen__int_mask(const dig_t *k, size_t len, int i) {
 	const dig_t bit = 1 << i;
 	return (k[0] & bit) != 0;
 }
+
+/* ------------------------------------------------------------------ CEIL-ZERO */
+void ok_ceil__guarded(uint8_t *out, size_t out_len) {
+	int m = (out_len == 0 ? 0 : RLC_CEIL(out_len, RLC_MD_LEN));
+	for (int i = 0; i < m; i++) {
+		out[i] = 0;
+	}
+}
+
+/* the block count of an empty request wraps */
+void bad_ceil_zero__wraps(uint8_t *out, size_t out_len) {
+	int m = RLC_CEIL(out_len, RLC_MD_LEN);
+	for (int i = 0; i < m; i++) {
+		out[i] = 0;
+	}
+}
